@@ -806,7 +806,22 @@ impl<'t, 'a, 'b> Gen<'t, 'a, 'b> {
                     e(Ty::Str, EKind::Std(StdFn::AsStr, vec![a]))
                 }
             },
-            Ty::Bool => match self.t.weighted(&[40, 20, 20, 10]) {
+            Ty::Bool => match self.t.weighted(&[40, 20, 20, 10, if ctx.pure && self.cfg.toplevel_calls { 0 } else { 5 }]) {
+                4 => {
+                    // `a <=> b` used as an expression (its value is a bool; a failing one ends the program)
+                    let t = self.t.pick(&[Ty::Int, Ty::Str, Ty::Bool]).clone();
+                    // equal operands: a leaf written twice (a cloned compound expression would duplicate the identity of
+                    // the `<!>` statements inside it); otherwise two independent expressions
+                    let (a, b) = if self.t.chance(3, 4) {
+                        let a = self.leaf(&t, ctx);
+                        let b = a.clone();
+                        (a, b)
+                    } else {
+                        (self.expr_c(&t, d.min(1), ctx), self.expr_c(&t, d.min(1), ctx))
+                    };
+                    self.cost(ctx, 1);
+                    e(Ty::Bool, EKind::AssertEq(Box::new(a), Box::new(b)))
+                }
                 0 => {
                     let t = self.cmp_operand_ty();
                     let op = *self.t.pick(&[BinOp::Lt, BinOp::Le, BinOp::Gt, BinOp::Ge, BinOp::Eq, BinOp::Ne]);
